@@ -815,9 +815,12 @@ static int addRequest(KSI_AsyncClient *c, KSI_AsyncHandle *handle, void *req,
 	if (hasConfig) {
 		/* Check if this is a multy-payload request. */
 		if (hasRequest) {
-			/* Copy the send state from the initial handle. */
-			confHandle->state = handle->state;
+			/* The conf handle is not put into the output queue itself (its request travels with the
+			 * initial handle), so nothing would ever take it out of the dispatch state: it waits for
+			 * its response from now on, and the receive timeout and connection errors apply to it. */
+			confHandle->state = KSI_ASYNC_STATE_WAITING_FOR_RESPONSE;
 			confHandle->reqTime = handle->reqTime;
+			confHandle->sndTime = handle->reqTime;
 		} else {
 			/* This is a server conf request. */
 			confHandle = handle;
